@@ -83,8 +83,10 @@ func lifeScenario(rng *rand.Rand, base, max int) scen.Scenario {
 		used[at] = true
 		var kind string
 		switch rng.Intn(6) {
-		case 0, 1:
+		case 0:
 			kind = fmt.Sprintf("refuse:%d", 1+rng.Intn(5))
+		case 1:
+			kind = fmt.Sprintf("refuseopen:%d", 1+rng.Intn(5)) // the broker refuses but leaves the connection open
 		case 2:
 			kind = scen.NoConnack
 		default:
@@ -96,8 +98,16 @@ func lifeScenario(rng *rand.Rand, base, max int) scen.Scenario {
 		sc.DialFail = append(sc.DialFail, 1+rng.Intn(8))
 	}
 	if rng.Intn(4) == 0 { // consecutive failures at the very start
-		sc.Faults = append(sc.Faults, scen.Fault{At: 1, Kind: "refuse:3"}, scen.Fault{At: 2, Kind: scen.NoConnack}, scen.Fault{At: 3, Kind: scen.CutBeforeErr})
+		sc.Faults = append(sc.Faults, scen.Fault{At: 1, Kind: "refuse:3"}, scen.Fault{At: 2, Kind: scen.NoConnack}, scen.Fault{At: 3, Kind: scen.CutBeforeErr}, scen.Fault{At: 4, Kind: "refuseopen:5"})
 		sc.DialFail = append(sc.DialFail, 1, 2)
+	}
+	if rng.Intn(12) == 0 && max <= 4 {
+		// a long outage: many consecutive dial failures (the back-off must stay at its cap, not wrap around)
+		k := 45 + rng.Intn(30)
+		for j := 2; j < 2+k; j++ {
+			sc.DialFail = append(sc.DialFail, j)
+		}
+		sc.Faults = append(sc.Faults, scen.Fault{At: 2, Kind: scen.CutAfter})
 	}
 	return sc
 }
